@@ -16,6 +16,7 @@ func genMocks(c *Ctx) { gen.CheckNoGlobalWrites(c.Run, c.Prog, "G-FRAME/global-s
 
 func genCompile(c *Ctx) {
 	gen.CheckKinds(c.Run, c.Prog)
+	gen.CheckImports(c.Run, c.Prog)
 	if na := gen.CheckAddVar(c.Run, c.Prog); na != nil {
 		gen.CheckReserved(c.Run, c.Prog, na, freeNameList(c, "G-RESERVED"), false)
 	}
